@@ -135,6 +135,7 @@ const (
 	SubrTail     // everything after the first moveto up to (not including) endchar lives in a Subr
 	SubrNested   // first contour in a Subr whose second half is in another Subr (two deep)
 	SubrOperator // the first moveto's operator alone in a Subr; its operands stay in the caller
+	SubrDeep     // first contour in a Subr reached through a chain of calls ten deep (the format's maximum nesting)
 	subrModes
 )
 
